@@ -722,4 +722,186 @@ def rstep (resend : Bool) (x : RSt) (e : Ev) : RSt × Step :=
   let r := step Variant.fixed x.s e
   (⟨r.st, if resend then retryRegister retry1 r.outs else retry1⟩, r)
 
+
+/-! ### `Memory.write` / `Memory.read` statement by statement, interleaved with the incoming-packet thread
+
+The events above treat a call of `Memory.write` / `Memory.read` as one step.  Here a call is the sequence of its
+statements, executed by the calling thread, while the incoming-packet thread handles replies in between (a synchronous
+link, whose reply is dispatched before `send_packet` has returned, is the extreme case).  `write()`:
+
+  `enqueue`  `with self._write_requests_lock:` + create/flush/append + the decision `len(queue) == 1`
+  `prepare`  `_write_new_chunk`: `data = self._data[:new_len]; self._data = self._data[new_len:]`, the packet is built
+  `send`     `self.cf.send_packet(pk, ...)`
+  `book`     `self._addr_add = len(data); self._bytes_left -= self._addr_add`   (AFTER `send_packet` has returned)
+  `release`  the `with` block ends, `return True`
+
+`ConcVariant.startInsideLock` (Tie A): `wreq.start()` is called inside the `with` block (the code), or after it.
+`_handle_chan_write` takes the same lock before it looks at the queue, so the incoming thread BLOCKS on a write
+reply while the lock is held by the caller (`cexec` returns `none`: that delivery cannot happen now); read replies
+and packets of other channels take no lock and are handled at once; the disconnect handler blocks on the lock too
+(it is modelled as ONE step that waits for the lock; its first half, which fails the read requests, does not wait in
+the code - a link loss in the middle of a call is outside this model).
+(The reply is handled by another thread: cflib dispatches incoming packets only from `_IncomingPacketHandler`.)
+
+`read()` (no lock): `check` (`if memory.id in self._read_requests: return False`), `register`
+(`self._read_requests[memory.id] = rreq`), `send` (`rreq.start()`: pack, `send_packet`; `_request_new_chunk` assigns
+no field - Tie A `readChunkOrder`).  Between `register` and `send` a read reply for this memory cannot be in flight
+(the device has not received the request, replies of earlier requests are gone: A1) - `cexec` returns `none` for it.
+
+One application thread calls at a time (`begin` needs `call = none`); every handler is one step (one incoming
+thread). -/
+
+structure ConcVariant where
+  startInsideLock : Bool
+  deriving DecidableEq, Repr
+
+def ConcVariant.code : ConcVariant := ⟨Gen.C06.writeStartInsideLock⟩
+
+/-- a call of `Memory.write` in progress on the calling thread -/
+structure WCall where
+  tag : Nat
+  id : Nat
+  addr : Nat
+  data : List UInt8
+  flush : Bool
+  progressCb : Bool
+  /-- 0 created, 1 enqueued (first chunk to be started), 2 chunk prepared, 3 packet sent, 4 bookkeeping done / nothing
+  to start -/
+  pc : Nat
+  /-- the chunk cut off by `prepare` (local variable `data` of `_write_new_chunk`) -/
+  chunk : List UInt8
+  deriving DecidableEq, Repr
+
+/-- a call of `Memory.read` in progress on the calling thread: 0 created, 1 checked (`memory.id` has no request),
+2 request registered (`self._read_requests[memory.id] = rreq`); the last statement, `rreq.start()`, sends the request
+packet - `_request_new_chunk` assigns no field (Tie A: `readChunkOrder`), all bookkeeping precedes `send_packet` -/
+structure RCall where
+  tag : Nat
+  id : Nat
+  addr : Nat
+  len : Nat
+  pc : Nat
+  deriving DecidableEq, Repr
+
+inductive Call
+  | w (k : WCall)
+  | r (k : RCall)
+  deriving DecidableEq, Repr
+
+structure CState where
+  s : St
+  call : Option Call
+  deriving DecidableEq, Repr
+
+/-- a `read()` call is between registering its request and sending the packet (`id`: for memory `id` only) -/
+def CState.inWindow (c : CState) (id : Option Nat) : Bool :=
+  match c.call with
+  | some (.r k) => k.pc == 2 && (id.isNone || id == some k.id)
+  | _ => false
+
+/-- apply `f` to the request with tag `t` in the queue of memory `id` (the Python object the caller holds) -/
+def updateReq (ws : List (Nat × List WReq)) (id t : Nat) (f : WReq → WReq) : List (Nat × List WReq) :=
+  match dget? ws id with
+  | some q => dset ws id (q.map fun w => if w.tag = t then f w else w)
+  | none => ws
+
+inductive CAct
+  /-- the application calls `Memory.write(...)` -/
+  | begin (tag id addr : Nat) (data : List UInt8) (flush progressCb : Bool)
+  /-- the application calls `Memory.read(...)` -/
+  | beginRead (tag id addr len : Nat)
+  /-- the calling thread executes its next statement -/
+  | stepCall
+  /-- the incoming-packet thread handles a received packet / the link drops -/
+  | env (e : Ev)
+  deriving DecidableEq, Repr
+
+/-- one step of the interleaved execution: new state, outputs, and the atomic event this step is the linearisation
+point of (`none` result: the action is not possible now - a thread is blocked on the lock, or nothing to step) -/
+def cexec (cv : ConcVariant) (c : CState) : CAct → Option (CState × List Out × List Ev)
+  | .begin tag id addr data flush p =>
+    match c.call with
+    | some _ => none                  -- one application thread
+    | none => some (⟨c.s, some (.w ⟨tag, id, addr, data, flush, p, 0, []⟩)⟩, [], [])
+  | .beginRead tag id addr len =>
+    match c.call with
+    | some _ => none
+    | none => some (⟨c.s, some (.r ⟨tag, id, addr, len, 0⟩)⟩, [], [])
+  | .env e =>
+    -- between registering a read request and sending its packet: no reply for that memory can be in flight (the
+    -- device has not received the request; replies of earlier requests are gone, A1), and a link loss in this
+    -- window is outside the model
+    match e with
+    | .pkt chan data =>
+      -- `_handle_chan_write` starts with `with self._write_requests_lock:`: the incoming thread blocks while the
+      -- caller holds the lock
+      if chan = Gen.C06.chanWrite ∧ c.s.lock = true ∧ 6 ≤ data.length then none
+      else if chan = Gen.C06.chanRead ∧ c.inWindow (some (data.headD 0).toNat) = true then none
+      else
+        -- (a write reply too short to be unpacked raises before the lock is touched; `step` leaves the state alone)
+        let r := step Variant.fixed c.s e
+        some (⟨r.st, c.call⟩, r.outs, [e])
+    | .disconnect =>
+      if c.s.lock = true ∨ c.inWindow none = true then none
+      else let r := step Variant.fixed c.s e; some (⟨r.st, c.call⟩, r.outs, [e])
+    | _ => none
+  | .stepCall =>
+    match c.call with
+    | none => none
+    | some (.r k) =>
+      let ev := Ev.read k.tag k.id k.addr k.len
+      if k.pc = 0 then
+        -- if memory.id in self._read_requests: return False
+        if dhas c.s.reads k.id then some (⟨c.s, none⟩, [], [ev])
+        else some (⟨c.s, some (.r { k with pc := 1 })⟩, [], [])
+      else if k.pc = 1 then
+        -- rreq = _ReadRequest(memory, addr, length, self.cf); self._read_requests[memory.id] = rreq
+        some (⟨{ c.s with reads := dset c.s.reads k.id (RReq.new k.tag k.id k.addr k.len) }, some (.r { k with pc := 2 })⟩,
+              [], [])
+      else if k.pc = 2 then
+        -- rreq.start(): pack, send_packet; return True
+        match requestNewChunk (RReq.new k.tag k.id k.addr k.len) with
+        | .error _ => some (⟨c.s, none⟩, [], [ev])
+        | .ok o => some (⟨c.s, none⟩, [o], [ev])
+      else none
+    | some (.w k) =>
+      let ev := Ev.write k.tag k.id k.addr k.data k.flush k.progressCb
+      if k.pc = 0 then
+        -- with self._write_requests_lock: ...
+        if c.s.lock = true then none else
+        let ws := ensureQueue c.s.writes k.id
+        let q0 := (dget? ws k.id).getD []
+        let q := if k.flush then q0.take 1 else q0
+        let w := WReq.new k.tag k.id k.addr k.data k.progressCb
+        let s1 : St := { c.s with writes := dset ws k.id (q ++ [w]), lock := cv.startInsideLock }
+        if q.isEmpty then some (⟨s1, some (.w { k with pc := 1 })⟩, [], [])
+        else some (⟨s1, some (.w { k with pc := 4 })⟩, [], [ev])          -- queued behind another request: nothing to start
+      else if k.pc = 1 then
+        -- data = self._data[:new_len]; self._data = self._data[new_len:]
+        let n := if k.data.length > Gen.C06.writeMax then Gen.C06.writeMax else k.data.length
+        some (⟨{ c.s with writes := updateReq c.s.writes k.id k.tag fun w => { w with rest := w.rest.drop n } },
+                some (.w { k with pc := 2, chunk := k.data.take n })⟩, [], [])
+      else if k.pc = 2 then
+        -- self.cf.send_packet(pk, expected_reply=reply, timeout=1)
+        some (⟨c.s, some (.w { k with pc := 3 })⟩, [.send Gen.C06.chanWrite ((leBytes 1 k.id ++ leBytes 4 k.addr) ++ k.chunk)], [ev])
+      else if k.pc = 3 then
+        -- self._addr_add = len(data); self._bytes_left -= self._addr_add
+        some (⟨{ c.s with writes := updateReq c.s.writes k.id k.tag fun w =>
+                  { w with addrAdd := k.chunk.length, left := w.left - k.chunk.length } },
+                some (.w { k with pc := 4 })⟩, [], [])
+      else
+        -- the `with` block ends (if it is still open); return True
+        some (⟨{ c.s with lock := if cv.startInsideLock then false else c.s.lock }, none⟩, [], [])
+
+/-- run a schedule; `none` if it picks an impossible action -/
+def cexecAll (cv : ConcVariant) : CState → List CAct → Option (CState × List Out × List Ev)
+  | c, [] => some (c, [], [])
+  | c, a :: as =>
+    match cexec cv c a with
+    | none => none
+    | some (c1, o1, l1) =>
+      match cexecAll cv c1 as with
+      | none => none
+      | some (c2, o2, l2) => some (c2, o1 ++ o2, l1 ++ l2)
+
 end CfVerif.C06
